@@ -91,12 +91,13 @@ class ControlFlowTransformer(converter.Base):
     template = """
       def getter_name():
         return guarded_state_vars,
-      def setter_name(vars_):
+      def setter_name(setter_arg_name):
         nonlocal_declarations
-        state_vars, = vars_
+        state_vars, = setter_arg_name
     """
     return templates.replace(
         template,
+        setter_arg_name=self.ctx.namer.new_symbol('vars_', block_vars),
         nonlocal_declarations=nonlocal_declarations,
         getter_name=getter_name,
         guarded_state_vars=guarded_block_vars,
